@@ -13,13 +13,18 @@
 (*   transport/polling            poll queue, long poll, client poll loop  *)
 (*                                (exits after the poll in flight)         *)
 (* Messages are numbered per direction.  "up" = client -> server.          *)
+(* Heartbeats travel in the same streams (server pingPong -> Send(PING);   *)
+(* client handlePacket -> Send(PONG)); a PING may therefore sit in the old *)
+(* poll queue when the server swaps.                                       *)
 (* Deviations: "NoResend" (upgradeTo forgets the queued packets),          *)
+(*             "ResendMsgsOnly" (upgradeTo re-sends MESSAGE packets only:  *)
+(*             a parked PING is dropped),                                  *)
 (*             "DropInflightPoll" (the client ignores the poll response    *)
 (*             that was in flight when it discarded polling)               *)
 (***************************************************************************)
 EXTENDS Naturals, Sequences, FiniteSets, TLC
 
-CONSTANTS NUp, NDown, Dev, Fault     \* Fault \in {"none", "candfail"}
+CONSTANTS NUp, NDown, NPing, Dev, Fault     \* Fault \in {"none", "candfail"}
 
 VARIABLES
     sTr, cTr,       \* current transport at server / client: "polling" | "websocket"
@@ -33,19 +38,28 @@ VARIABLES
     cand,           \* candidate: "none" "open" "pinged" "ponged" "committed" "upgraded" "failed"
     nextUp, nextDown,
     dlvUp, dlvDown, \* delivered to the application, in order of delivery
-    noopDue         \* the asynchronous NOOP of Discard / probe still to be queued
+    noopDue,        \* the asynchronous NOOP of Discard / probe still to be queued
+    nextPing,       \* next heartbeat number of the server's ping loop
+    pingGot,        \* PINGs the client has handled
+    pongDue,        \* PINGs handled whose PONG the client has not sent yet
+    pongGot         \* PONGs the server has received
 
-vars == <<sTr, cTr, sPq, poll, resp, respOn, cLoop, cDisc, wsUp, wsDown, cand, nextUp, nextDown, dlvUp, dlvDown, noopDue>>
+vars == <<sTr, cTr, sPq, poll, resp, respOn, cLoop, cDisc, wsUp, wsDown, cand, nextUp, nextDown, dlvUp, dlvDown, noopDue, nextPing, pingGot, pongDue, pongGot>>
 
 Init ==
     /\ sTr = "polling" /\ cTr = "polling" /\ sPq = <<>> /\ poll = "none" /\ resp = <<>> /\ respOn = FALSE
     /\ cLoop = "idle" /\ cDisc = FALSE /\ wsUp = <<>> /\ wsDown = <<>> /\ cand = "none"
     /\ nextUp = 1 /\ nextDown = 1 /\ dlvUp = <<>> /\ dlvDown = <<>> /\ noopDue = 0
+    /\ nextPing = 1 /\ pingGot = {} /\ pongDue = {} /\ pongGot = {}
 
 \* every item has the same shape (TLC cannot compare numbers with strings)
 M(n) == <<"m", n>>
 Noop == <<"noop", 0>>
 Upgrade == <<"upgrade", 0>>
+Ping(k) == <<"ping", k>>
+Pong(k) == <<"pong", k>>
+Pings(q) == {q[i][2] : i \in {j \in 1..Len(q) : q[j][1] = "ping"}}
+hb == <<nextPing, pingGot, pongDue, pongGot>>
 Msgs(q) == LET d == SelectSeq(q, LAMBDA m : m[1] = "m") IN [i \in 1..Len(d) |-> d[i][2]]
 
 \* the application sends; Send holds the read lock, so it is atomic with respect to a swap
@@ -54,64 +68,88 @@ ClientSend ==
     /\ IF cTr = "polling" THEN dlvUp' = Append(dlvUp, nextUp) /\ UNCHANGED wsUp     \* synchronous POST
                           ELSE wsUp' = Append(wsUp, M(nextUp)) /\ UNCHANGED dlvUp
     /\ nextUp' = nextUp + 1
-    /\ UNCHANGED <<sTr, cTr, sPq, poll, resp, respOn, cLoop, cDisc, wsDown, cand, nextDown, dlvDown, noopDue>>
+    /\ UNCHANGED <<sTr, cTr, sPq, poll, resp, respOn, cLoop, cDisc, wsDown, cand, nextDown, dlvDown, noopDue, hb>>
 
 ServerSend ==
     /\ nextDown <= NDown
     /\ IF sTr = "polling" THEN sPq' = Append(sPq, M(nextDown)) /\ UNCHANGED wsDown
                           ELSE wsDown' = Append(wsDown, M(nextDown)) /\ UNCHANGED sPq
     /\ nextDown' = nextDown + 1
-    /\ UNCHANGED <<sTr, cTr, poll, resp, respOn, cLoop, cDisc, wsUp, cand, nextUp, dlvUp, dlvDown, noopDue>>
+    /\ UNCHANGED <<sTr, cTr, poll, resp, respOn, cLoop, cDisc, wsUp, cand, nextUp, dlvUp, dlvDown, noopDue, hb>>
 
 \* long polling
 PollStart == /\ cLoop = "idle" /\ ~cDisc /\ poll = "none" /\ ~respOn /\ sTr = "polling"
              /\ cLoop' = "inflight" /\ poll' = "pending"
-             /\ UNCHANGED <<sTr, cTr, sPq, resp, respOn, cDisc, wsUp, wsDown, cand, nextUp, nextDown, dlvUp, dlvDown, noopDue>>
+             /\ UNCHANGED <<sTr, cTr, sPq, resp, respOn, cDisc, wsUp, wsDown, cand, nextUp, nextDown, dlvUp, dlvDown, noopDue, hb>>
 PollRespond == /\ poll = "pending" /\ sPq # <<>>
                /\ resp' = sPq /\ respOn' = TRUE /\ sPq' = <<>> /\ poll' = "none"
-               /\ UNCHANGED <<sTr, cTr, cLoop, cDisc, wsUp, wsDown, cand, nextUp, nextDown, dlvUp, dlvDown, noopDue>>
+               /\ UNCHANGED <<sTr, cTr, cLoop, cDisc, wsUp, wsDown, cand, nextUp, nextDown, dlvUp, dlvDown, noopDue, hb>>
 PollRecv == /\ respOn
             /\ dlvDown' = IF cDisc /\ "DropInflightPoll" \in Dev THEN dlvDown ELSE dlvDown \o Msgs(resp)
             /\ respOn' = FALSE /\ resp' = <<>>
             /\ cLoop' = IF cDisc THEN "exit" ELSE "idle"
-            /\ UNCHANGED <<sTr, cTr, sPq, poll, cDisc, wsUp, wsDown, cand, nextUp, nextDown, dlvUp, noopDue>>
+            /\ LET ps == IF cDisc /\ "DropInflightPoll" \in Dev THEN {} ELSE Pings(resp) IN
+                 pingGot' = pingGot \cup ps /\ pongDue' = pongDue \cup ps
+            /\ UNCHANGED <<sTr, cTr, sPq, poll, cDisc, wsUp, wsDown, cand, nextUp, nextDown, dlvUp, noopDue, nextPing, pongGot>>
 \* a NOOP queued asynchronously (go t.Send(noop))
 NoopLand == /\ noopDue > 0 /\ noopDue' = noopDue - 1
             /\ sPq' = Append(sPq, Noop)
-            /\ UNCHANGED <<sTr, cTr, poll, resp, respOn, cLoop, cDisc, wsUp, wsDown, cand, nextUp, nextDown, dlvUp, dlvDown>>
+            /\ UNCHANGED <<sTr, cTr, poll, resp, respOn, cLoop, cDisc, wsUp, wsDown, cand, nextUp, nextDown, dlvUp, dlvDown, hb>>
 
 \* upgrade
 CandOpen == /\ cand = "none" /\ cand' = "open"
-            /\ UNCHANGED <<sTr, cTr, sPq, poll, resp, respOn, cLoop, cDisc, wsUp, wsDown, nextUp, nextDown, dlvUp, dlvDown, noopDue>>
+            /\ UNCHANGED <<sTr, cTr, sPq, poll, resp, respOn, cLoop, cDisc, wsUp, wsDown, nextUp, nextDown, dlvUp, dlvDown, noopDue, hb>>
 ProbePing == /\ cand = "open" /\ cand' = "pinged"
-             /\ UNCHANGED <<sTr, cTr, sPq, poll, resp, respOn, cLoop, cDisc, wsUp, wsDown, nextUp, nextDown, dlvUp, dlvDown, noopDue>>
+             /\ UNCHANGED <<sTr, cTr, sPq, poll, resp, respOn, cLoop, cDisc, wsUp, wsDown, nextUp, nextDown, dlvUp, dlvDown, noopDue, hb>>
 \* server: PONG probe on the candidate + NOOP to force a poll cycle
 ProbePong == /\ cand = "pinged" /\ cand' = "ponged" /\ noopDue' = noopDue + 1
-             /\ UNCHANGED <<sTr, cTr, sPq, poll, resp, respOn, cLoop, cDisc, wsUp, wsDown, nextUp, nextDown, dlvUp, dlvDown>>
+             /\ UNCHANGED <<sTr, cTr, sPq, poll, resp, respOn, cLoop, cDisc, wsUp, wsDown, nextUp, nextDown, dlvUp, dlvDown, hb>>
 \* the candidate dies before the client's commit point: nothing changes for the session
 CandFail == /\ Fault = "candfail" /\ cand \in {"open", "pinged", "ponged"} /\ cand' = "failed"
-            /\ UNCHANGED <<sTr, cTr, sPq, poll, resp, respOn, cLoop, cDisc, wsUp, wsDown, nextUp, nextDown, dlvUp, dlvDown, noopDue>>
+            /\ UNCHANGED <<sTr, cTr, sPq, poll, resp, respOn, cLoop, cDisc, wsUp, wsDown, nextUp, nextDown, dlvUp, dlvDown, noopDue, hb>>
 \* client: PONG probe received -> finishUpgradeTo under the write lock
 ClientSwap == /\ cand = "ponged" /\ cand' = "committed"
               /\ cTr' = "websocket" /\ cDisc' = TRUE
               /\ cLoop' = IF cLoop = "idle" THEN "exit" ELSE cLoop
               /\ wsUp' = Append(wsUp, Upgrade)
-              /\ UNCHANGED <<sTr, sPq, poll, resp, respOn, wsDown, nextUp, nextDown, dlvUp, dlvDown, noopDue>>
+              /\ UNCHANGED <<sTr, sPq, poll, resp, respOn, wsDown, nextUp, nextDown, dlvUp, dlvDown, noopDue, hb>>
 \* server: UPGRADE received on the candidate -> upgradeTo under the write lock
 ServerSwap == /\ wsUp # <<>> /\ Head(wsUp) = Upgrade
               /\ wsUp' = Tail(wsUp) /\ cand' = "upgraded"
               /\ sTr' = "websocket" /\ noopDue' = noopDue + 1             \* Discard: go Send(noop)
-              /\ wsDown' = IF "NoResend" \in Dev THEN wsDown ELSE wsDown \o SelectSeq(sPq, LAMBDA m : m[1] = "m")   \* re-send what was queued
+              /\ wsDown' = IF "NoResend" \in Dev THEN wsDown ELSE IF "ResendMsgsOnly" \in Dev THEN wsDown \o SelectSeq(sPq, LAMBDA m : m[1] = "m")
+                            ELSE wsDown \o SelectSeq(sPq, LAMBDA m : m[1] # "noop")   \* re-send what was queued, minus NOOPs
               /\ sPq' = <<>>
-              /\ UNCHANGED <<cTr, poll, resp, respOn, cLoop, cDisc, nextUp, nextDown, dlvUp, dlvDown>>
+              /\ UNCHANGED <<cTr, poll, resp, respOn, cLoop, cDisc, nextUp, nextDown, dlvUp, dlvDown, hb>>
 WsUp == /\ wsUp # <<>> /\ Head(wsUp) # Upgrade /\ sTr = "websocket"
-        /\ dlvUp' = Append(dlvUp, Head(wsUp)[2]) /\ wsUp' = Tail(wsUp)
-        /\ UNCHANGED <<sTr, cTr, sPq, poll, resp, respOn, cLoop, cDisc, wsDown, cand, nextUp, nextDown, dlvDown, noopDue>>
+        /\ wsUp' = Tail(wsUp)
+        /\ IF Head(wsUp)[1] = "pong" THEN pongGot' = pongGot \cup {Head(wsUp)[2]} /\ UNCHANGED dlvUp
+                                     ELSE dlvUp' = Append(dlvUp, Head(wsUp)[2]) /\ UNCHANGED pongGot
+        /\ UNCHANGED <<sTr, cTr, sPq, poll, resp, respOn, cLoop, cDisc, wsDown, cand, nextUp, nextDown, dlvDown, noopDue, nextPing, pingGot, pongDue>>
 WsDown == /\ wsDown # <<>> /\ cTr = "websocket"
-          /\ dlvDown' = Append(dlvDown, Head(wsDown)[2]) /\ wsDown' = Tail(wsDown)
-          /\ UNCHANGED <<sTr, cTr, sPq, poll, resp, respOn, cLoop, cDisc, wsUp, cand, nextUp, nextDown, dlvUp, noopDue>>
+          /\ wsDown' = Tail(wsDown)
+          /\ IF Head(wsDown)[1] = "ping"
+                THEN /\ pingGot' = pingGot \cup {Head(wsDown)[2]} /\ pongDue' = pongDue \cup {Head(wsDown)[2]}
+                     /\ UNCHANGED dlvDown
+                ELSE dlvDown' = Append(dlvDown, Head(wsDown)[2]) /\ UNCHANGED <<pingGot, pongDue>>
+          /\ UNCHANGED <<sTr, cTr, sPq, poll, resp, respOn, cLoop, cDisc, wsUp, cand, nextUp, nextDown, dlvUp, noopDue, nextPing, pongGot>>
+
+\* heartbeat: the server's ping loop sends through Send like any packet; the client answers from
+\* handlePacket through its own Send (read lock: atomic with respect to its swap)
+ServerPing ==
+    /\ nextPing <= NPing
+    /\ IF sTr = "polling" THEN sPq' = Append(sPq, Ping(nextPing)) /\ UNCHANGED wsDown
+                          ELSE wsDown' = Append(wsDown, Ping(nextPing)) /\ UNCHANGED sPq
+    /\ nextPing' = nextPing + 1
+    /\ UNCHANGED <<sTr, cTr, poll, resp, respOn, cLoop, cDisc, wsUp, cand, nextUp, nextDown, dlvUp, dlvDown, noopDue, pingGot, pongDue, pongGot>>
+ClientPong(k) ==
+    /\ k \in pongDue /\ pongDue' = pongDue \ {k}
+    /\ IF cTr = "polling" THEN pongGot' = pongGot \cup {k} /\ UNCHANGED wsUp     \* synchronous POST
+                          ELSE wsUp' = Append(wsUp, Pong(k)) /\ UNCHANGED pongGot
+    /\ UNCHANGED <<sTr, cTr, sPq, poll, resp, respOn, cLoop, cDisc, wsDown, cand, nextUp, nextDown, dlvUp, dlvDown, noopDue, nextPing, pingGot>>
 
 Next == ClientSend \/ ServerSend \/ PollStart \/ PollRespond \/ PollRecv \/ NoopLand
+        \/ ServerPing \/ (\E k \in 1..NPing : ClientPong(k))
         \/ CandOpen \/ ProbePing \/ ProbePong \/ CandFail \/ ClientSwap \/ ServerSwap \/ WsUp \/ WsDown
 
 Spec == Init /\ [][Next]_vars
@@ -126,6 +164,10 @@ Range(q) == {q[i] : i \in 1..Len(q)}
 
 \* when nothing can move any more, everything sent has been delivered
 NothingLost == (~ENABLED Next) => (Range(dlvUp) = 1..(nextUp - 1) /\ Range(dlvDown) = 1..(nextDown - 1))
+
+\* every heartbeat the ping loop sent is answered: none is dropped by a swap (C14 through the upgrade)
+HeartbeatNotLost == (~ENABLED Next) => (pingGot = 1..(nextPing - 1) /\ pongGot = 1..(nextPing - 1))
+HeartbeatOnlySent == pingGot \subseteq 1..(nextPing - 1) /\ pongGot \subseteq pingGot /\ pongDue \subseteq pingGot
 
 \* a candidate that failed before the commit point leaves the session on its original transport
 FailedUpgradeKeepsOld == cand = "failed" => (sTr = "polling" /\ cTr = "polling" /\ ~cDisc)
